@@ -110,30 +110,195 @@ def op_sets(repo):
     return out
 
 
+# ---- partial evaluation of a dispatcher on one subject value
+
+def _fold_test(test, subj, value):
+    """True / False / None (unknown) for `test` when src(subject) == subj has the constant `value`"""
+    if isinstance(test, ast.Compare) and len(test.ops) == 1 and src(test.left) == subj:
+        c = test.comparators[0]
+        op = test.ops[0]
+        if isinstance(c, ast.Constant) and isinstance(op, (ast.Eq, ast.NotEq)):
+            r = c.value == value
+            return r if isinstance(op, ast.Eq) else not r
+        if isinstance(c, (ast.Tuple, ast.List, ast.Set)) and all(isinstance(e, ast.Constant) for e in c.elts) and isinstance(op, (ast.In, ast.NotIn)):
+            r = value in [e.value for e in c.elts]
+            return r if isinstance(op, ast.In) else not r
+    if isinstance(test, ast.UnaryOp) and isinstance(test.op, ast.Not):
+        r = _fold_test(test.operand, subj, value)
+        return None if r is None else not r
+    if isinstance(test, ast.BoolOp):
+        rs = [_fold_test(v, subj, value) for v in test.values]
+        if isinstance(test.op, ast.And):
+            return False if False in rs else (True if all(r is True for r in rs) else None)
+        return True if True in rs else (False if all(r is False for r in rs) else None)
+    return None
+
+
+def _always_leaves(stmts):
+    for st in stmts:
+        if isinstance(st, (ast.Return, ast.Raise)):
+            return True
+        if isinstance(st, ast.If) and st.orelse and _always_leaves(st.body) and _always_leaves(st.orelse):
+            return True
+    return False
+
+
+def specialize(stmts, subj, value):
+    """the statements that can run when the subject has `value` (branches on the subject folded away; unknown tests kept)"""
+    out = []
+    for st in stmts:
+        if isinstance(st, ast.If):
+            r = _fold_test(st.test, subj, value)
+            if r is True:
+                out += specialize(st.body, subj, value)
+                if _always_leaves(st.body):
+                    return out
+            elif r is False:
+                out += specialize(st.orelse, subj, value)
+                if st.orelse and _always_leaves(st.orelse):
+                    return out
+            else:
+                new = ast.If(test=st.test, body=specialize(st.body, subj, value) or [ast.Pass()], orelse=specialize(st.orelse, subj, value))
+                out.append(ast.copy_location(new, st))
+        else:
+            out.append(st)
+            if isinstance(st, (ast.Return, ast.Raise)):
+                return out
+    return out
+
+
+def _fold_expr(e, subj, value):
+    """conditional expressions on the subject folded"""
+    while isinstance(e, ast.IfExp):
+        r = _fold_test(e.test, subj, value)
+        if r is None:
+            break
+        e = e.body if r else e.orelse
+    return e
+
+
 def emit_table(repo, fq):
-    """{tag: {"ops": {op: emitted text} or None, "formats": [format strings], "node": if-node}} from an _ir_to_source method"""
+    """{tag: {"ops": {op: emitted text} or None, "formats": [canonical format strings], "declines": bool, "indices": {k}, "node": node}}
+    from an _ir_to_source method.  The method is partially evaluated for each tag it compares its subject (ir[0]) with, so that
+    merged branches (`in ('binop', 'cmp')`), tables chosen by a conditional expression and module-level tables are seen through.
+    Canonical format: operands rendered from ir[k] appear as {irk}, the looked-up operator text as {op}."""
     f = repo.fn(fq)
+    irp = [p for p in f.params() if p != "self"][0]
+    mod_dicts = {}
+    for n in f.module.tree.body:
+        if isinstance(n, ast.Assign) and isinstance(n.value, ast.Dict) and isinstance(n.targets[0], ast.Name):
+            mod_dicts[n.targets[0].id] = n.value
+    # subject: ir[0] or a local bound to it
+    subj_names = {f"{irp}[0]"}
+    for n in walk_local(f.node):
+        if isinstance(n, ast.Assign) and src(n.value) == f"{irp}[0]" and isinstance(n.targets[0], ast.Name):
+            subj_names.add(n.targets[0].id)
+    tags = []
+    for n in walk_local(f.node):
+        if isinstance(n, ast.Compare) and src(n.left) in subj_names:
+            for c in n.comparators:
+                for e in (c.elts if isinstance(c, (ast.Tuple, ast.List, ast.Set)) else [c]):
+                    if isinstance(e, ast.Constant) and isinstance(e.value, str) and e.value not in tags:
+                        tags.append(e.value)
     out = {}
-    for n in f.node.body:
-        if not isinstance(n, ast.If):
-            continue
-        t = n.test
-        if isinstance(t, ast.Compare) and len(t.ops) == 1 and isinstance(t.ops[0], ast.Eq) and isinstance(t.comparators[0], ast.Constant):
-            tag = t.comparators[0].value
-            ops = None
-            for d in [x for s in n.body for x in walk_local(s) if isinstance(x, ast.Dict)]:
-                if all(isinstance(k, ast.Constant) for k in d.keys) and all(isinstance(v, ast.Constant) for v in d.values):
+    for tag in tags:
+        body = f.node.body
+        for sj in subj_names:
+            body = specialize(body, sj, tag)
+        nodes = [x for st in body for x in walk_local(st)]
+        # environment of the specialised body
+        env = {}
+        for x in nodes:
+            if isinstance(x, ast.Assign) and len(x.targets) == 1:
+                t, v = x.targets[0], x.value
+                for sj in subj_names:
+                    v = _fold_expr(v, sj, tag)
+                if isinstance(t, ast.Name):
+                    env.setdefault(t.id, []).append(v)
+                elif isinstance(t, ast.Tuple) and isinstance(v, ast.Tuple) and len(t.elts) == len(v.elts):
+                    for a, b in zip(t.elts, v.elts):
+                        if isinstance(a, ast.Name):
+                            env.setdefault(a.id, []).append(b)
+
+        def resolve(e, depth=4):
+            while depth and isinstance(e, ast.Name) and len(env.get(e.id, [])) == 1:
+                e = env[e.id][0]
+                depth -= 1
+            return e
+
+        def operand_index(e):
+            e = resolve(e)
+            if isinstance(e, ast.Subscript) and isinstance(e.value, ast.Name) and e.value.id == irp and isinstance(e.slice, ast.Constant):
+                return e.slice.value
+            return None
+
+        def rendered(e):
+            """k if e is the source rendered from ir[k] (self._ir_to_source(ir[k]) or a local bound to it)"""
+            e = resolve(e)
+            if isinstance(e, ast.Call) and callee_name(e) == f.name and e.args:
+                return operand_index(e.args[0])
+            return None
+        ops, lookup_vars = None, set()
+        for x in nodes:
+            if isinstance(x, ast.Call) and isinstance(x.func, ast.Attribute) and x.func.attr == "get" and x.args and operand_index(x.args[0]) == 1:
+                d = resolve(x.func.value)
+                for sj in subj_names:
+                    d = _fold_expr(d, sj, tag)
+                d = resolve(d)
+                if isinstance(d, ast.Name) and d.id in mod_dicts:
+                    d = mod_dicts[d.id]
+                if isinstance(d, ast.Dict) and all(isinstance(k, ast.Constant) for k in d.keys) and all(isinstance(v, ast.Constant) for v in d.values):
                     ops = {k.value: v.value for k, v in zip(d.keys, d.values)}
-            fmts = []
-            for r in [x for s in n.body for x in walk_local(s) if isinstance(x, ast.Return)]:
-                v = r.value
+                par = getattr(x, "_parent", None)
+                if isinstance(par, ast.Assign) and isinstance(par.targets[0], ast.Name):
+                    lookup_vars.add(par.targets[0].id)
+        fmts, declines = [], False
+        for r in [x for x in nodes if isinstance(x, ast.Return)]:
+            alts = []
+
+            def split(v):
+                for sj in subj_names:
+                    v = _fold_expr(v, sj, tag)
+                if isinstance(v, ast.IfExp):
+                    split(v.body)
+                    split(v.orelse)
+                    alts.append(("test", v.test))
+                else:
+                    alts.append(("val", v))
+            split(r.value) if r.value is not None else None
+            for kind, v in alts:
+                if kind == "test":
+                    if isinstance(v, ast.Compare) and isinstance(v.left, ast.Name) and v.left.id in lookup_vars and isinstance(v.comparators[0], ast.Constant) and v.comparators[0].value is None:
+                        declines = True
+                    continue
                 if isinstance(v, ast.JoinedStr):
-                    fmts.append("".join(p.value if isinstance(p, ast.Constant) else "{" + src(p.value) + "}" for p in v.values))
+                    parts = []
+                    for p in v.values:
+                        if isinstance(p, ast.Constant):
+                            parts.append(p.value)
+                        else:
+                            k = rendered(p.value)
+                            if k is not None:
+                                parts.append("{ir%d}" % k)
+                            elif isinstance(p.value, ast.Name) and p.value.id in lookup_vars:
+                                parts.append("{op}")
+                            else:
+                                parts.append("{" + src(p.value) + "}")
+                    fmts.append("".join(parts))
                 elif isinstance(v, ast.Call) and callee_name(v) == "repr":
                     fmts.append("repr")
                 elif isinstance(v, ast.Subscript):
                     fmts.append("{" + src(v) + "}")
-            out[tag] = {"ops": ops, "formats": fmts, "node": n}
+        # statement form of the decline: `if <lookup> is None: return None`
+        for x in nodes:
+            if isinstance(x, ast.If) and isinstance(x.test, ast.Compare) and isinstance(x.test.left, ast.Name) and x.test.left.id in lookup_vars and \
+                    isinstance(x.test.ops[0], ast.Is) and isinstance(x.test.comparators[0], ast.Constant) and x.test.comparators[0].value is None and \
+                    any(isinstance(r, ast.Return) and (r.value is None or (isinstance(r.value, ast.Constant) and r.value.value is None)) for r in x.body):
+                declines = True
+        idx = {x.slice.value for x in nodes if isinstance(x, ast.Subscript) and isinstance(x.value, ast.Name) and x.value.id == irp and isinstance(x.slice, ast.Constant)}
+        first = next((st for st in body if not isinstance(st, ast.Pass)), f.node)
+        if fmts or ops is not None:
+            out[tag] = {"ops": ops, "formats": fmts, "declines": declines, "indices": idx - {0}, "node": first}
     return out
 
 
